@@ -419,7 +419,6 @@ func ruleLogPosition() *Rule {
 	}
 }
 
-
 // phiRelated: a and b are the same value, or one is a phi through which the other flows (the same source variable
 // seen inside and after a loop).
 func phiRelated(a, b ssa.Value) bool {
